@@ -74,19 +74,19 @@ type Class struct {
 	Comments   bool     `json:"comments,omitempty"`
 	Methods    []Method `json:"methods"`
 	// optional variations added later
-	Kind       string   `json:"kind,omitempty"`       // "" class | interface (never a controller)
-	Stereotype string   `json:"stereotype,omitempty"` // annotation of a class that is not a controller: @Service, @ControllerAdvice ...
-	CtlArg     string   `json:"ctlArg,omitempty"`     // argument of the controller annotation: ("orderCtl") | (value = "orderCtl")
-	Pre        []string `json:"pre,omitempty"`        // type annotations before the controller annotation / stereotype
-	Mid        []string `json:"mid,omitempty"`        // between controller annotation and class-level mapping
-	Post       []string `json:"post,omitempty"`       // after the class-level mapping
-	BasePair   string   `json:"basePair,omitempty"`   // one more pair in the class-level mapping (baseForm valuePair; pairOnly: the only pair)
-	BasePairFirst bool  `json:"basePairFirst,omitempty"`
-	ClassMods  string   `json:"classMods,omitempty"`  // "" public | package | public final | public abstract
-	Extends    string   `json:"extends,omitempty"`
-	Implements string   `json:"implements,omitempty"`
-	Imports    []string `json:"imports,omitempty"`    // further single-type imports
-	Dto        string   `json:"dto,omitempty"`        // "" | before | after: a second, package-private class in the same file
+	Kind          string   `json:"kind,omitempty"`       // "" class | interface (never a controller)
+	Stereotype    string   `json:"stereotype,omitempty"` // annotation of a class that is not a controller: @Service, @ControllerAdvice ...
+	CtlArg        string   `json:"ctlArg,omitempty"`     // argument of the controller annotation: ("orderCtl") | (value = "orderCtl")
+	Pre           []string `json:"pre,omitempty"`        // type annotations before the controller annotation / stereotype
+	Mid           []string `json:"mid,omitempty"`        // between controller annotation and class-level mapping
+	Post          []string `json:"post,omitempty"`       // after the class-level mapping
+	BasePair      string   `json:"basePair,omitempty"`   // one more pair in the class-level mapping (baseForm valuePair; pairOnly: the only pair)
+	BasePairFirst bool     `json:"basePairFirst,omitempty"`
+	ClassMods     string   `json:"classMods,omitempty"` // "" public | package | public final | public abstract
+	Extends       string   `json:"extends,omitempty"`
+	Implements    string   `json:"implements,omitempty"`
+	Imports       []string `json:"imports,omitempty"` // further single-type imports
+	Dto           string   `json:"dto,omitempty"`     // "" | before | after: a second, package-private class in the same file
 }
 
 type Case struct {
@@ -114,13 +114,51 @@ var otherAnnotations = []string{"@MessageMapping(\"/chat\")", "@SubscribeMapping
 var (
 	pkgs       = []string{"com.acme.web", "com.acme.api", "org.shop"}
 	classStems = []string{"Order", "User", "Book", "Cart", "Item", "Blog", "Stock", "Mail"}
-	pathWords  = []string{"/orders", "/users", "/a", "/list", "/{id}", "/items/{id}", "/x/y", "/", "/v1/books"}
+	// the first nine are the original pool; "" and a path without leading slash are concatenated like any other
+	pathWords  = []string{"/orders", "/users", "/a", "/list", "/{id}", "/items/{id}", "/x/y", "/", "/v1/books", "", "/items/{id}/sub", "/a-b_c.json", "all"}
+	baseWords  = []string{"/orders", "/users", "/a", "/list", "/api/v1", "/", "/api/", "v2"}
 	bodyTypes  = []string{"OrderDto", "User", "List<Item>", "Map<String, Item>", "BookRequest", "int[]"}
 	plainTypes = []string{"String", "Long", "int", "HttpServletRequest", "Pageable"}
 	retTypes   = []string{"String", "void", "ResponseEntity<String>", "List<Item>", "int"}
 	verbs      = []string{"GET", "POST", "PUT", "DELETE"}
 	verbAnn    = map[string]string{"GET": "GetMapping", "POST": "PostMapping", "PUT": "PutMapping", "DELETE": "DeleteMapping"}
+
+	// annotations a handler (or any method) carries next to its mapping annotation; none of them is a mapping
+	methodExtras = []string{"@ResponseBody", "@ResponseStatus(HttpStatus.CREATED)", "@PreAuthorize(\"hasRole('ADMIN')\")",
+		"@ApiOperation(value = \"/doc/path\", httpMethod = \"PATCH\")", "@Transactional", "@Override", "@Deprecated", "@CrossOrigin(\"/origin\")",
+		"@Validated", "@SuppressWarnings({\"unchecked\", \"rawtypes\"})", "@Cacheable(value = \"/cache\", key = \"#id\")", "@Timed(\"/metrics\")"}
+	// further pairs of a mapping annotation
+	extraPairs = []string{"produces = \"application/json\"", "consumes = MediaType.APPLICATION_JSON_VALUE", "params = \"/v=1\"", "headers = \"X-Api=/2\"", "name = \"/named\"", "produces = {\"text/plain\", \"/x\"}"}
+	// annotations of a type declaration that are neither a controller annotation nor a mapping
+	typeExtras = []string{"@Slf4j", "@Validated", "@Api(tags = \"/tagged\")", "@CrossOrigin(origins = \"*\")", "@CrossOrigin(\"/origin\")", "@Api(\"/docs\")", "@Scope(\"request\")", "@SuppressWarnings(\"unused\")", "@RequiredArgsConstructor"}
+	// what a class that is not a controller may be annotated with
+	stereotypes = []string{"@Service", "@Component", "@ControllerAdvice", "@RestControllerAdvice", "@Repository", "@Configuration", "@FeignClient(\"/orders\")", "@ControllerAdvice(annotations = RestController.class)"}
+	fieldDecls  = []string{"@Autowired\nprivate OrderService svc%d;", "@Value(\"${app.path:/configured}\")\nprivate String conf%d;", "private static final String PATH%d = \"/constant\";", "@Resource(name = \"/res\") private Object res%d;"}
+	methodMods  = []string{"package", "protected", "public final", "public synchronized"}
 )
+
+// rarely draws true with probability 1/(k+1); shrinks to false
+func rarely(t *rapid.T, k int, label string) bool {
+	return rapid.IntRange(0, k).Draw(t, label) == k
+}
+
+func someOf(t *rapid.T, pool []string, max int, label string) []string {
+	var out []string
+	// 0 most of the time
+	n := rapid.IntRange(0, 2*max+1).Draw(t, label+"N") - (max + 1)
+	for i := 0; i < n; i++ {
+		out = append(out, rapid.SampledFrom(pool).Draw(t, label))
+	}
+	return out
+}
+
+func isBodyKind(k string) bool {
+	switch k {
+	case "body", "validBody", "bodyValid", "bodyRequired", "bodyThenFinal", "finalThenBody":
+		return true
+	}
+	return false
+}
 
 func genMethod(t *rapid.T, name string, inController bool) Method {
 	m := Method{Name: name, Ret: rapid.SampledFrom(retTypes).Draw(t, "ret")}
@@ -151,14 +189,46 @@ func genMethod(t *rapid.T, name string, inController bool) Method {
 		if m.Form != "nopath" {
 			m.Path = rapid.SampledFrom(pathWords).Draw(t, "path")
 		}
+		switch m.Form {
+		case "requestValueFirst", "requestMethodFirst":
+			switch rapid.IntRange(0, 5).Draw(t, "verbForm") {
+			case 4:
+				m.VerbForm = "static"
+			case 5:
+				if !pbt.Excluded("method_array") {
+					m.VerbForm = "array"
+				}
+			}
+			if rarely(t, 2, "hasPair") {
+				m.Pair = rapid.SampledFrom(extraPairs).Draw(t, "pair")
+				m.PairPos = rapid.IntRange(0, 2).Draw(t, "pairPos")
+			}
+		case "shorthandValuePair":
+			if rarely(t, 1, "hasPair") {
+				m.Pair = rapid.SampledFrom(extraPairs).Draw(t, "pair")
+				m.PairPos = rapid.IntRange(0, 1).Draw(t, "pairPos")
+			}
+		case "nopath":
+			switch rapid.IntRange(0, 4).Draw(t, "nopathForm") {
+			case 3:
+				m.Parens = true
+			case 4:
+				m.Pair = rapid.SampledFrom(extraPairs).Draw(t, "pair")
+			}
+		}
 	}
 	n := rapid.IntRange(0, 4).Draw(t, "nParams")
 	hasBody := false
 	for i := 0; i < n; i++ {
 		p := Param{Name: fmt.Sprintf("p%d", i)}
-		k := rapid.IntRange(0, 6).Draw(t, "paramKind")
+		k := rapid.IntRange(0, 12).Draw(t, "paramKind")
 		if !m.isHandler() {
-			k = 0
+			// a method that is no handler takes plain parameters, now and then a @RequestBody one
+			if k == 12 && rarely(t, 1, "bodyOfNonHandler") {
+				k = 4
+			} else {
+				k = 0
+			}
 		}
 		switch k {
 		case 0, 1:
@@ -170,19 +240,52 @@ func genMethod(t *rapid.T, name string, inController bool) Method {
 		case 3:
 			p.Kind = "valid"
 			p.Type = rapid.SampledFrom(bodyTypes[:2]).Draw(t, "vtype")
-		default:
+		case 10:
+			p.Kind = "pathMarker"
+			p.Type = "Long"
+		case 11:
+			p.Kind = "requestParam"
+			p.Type = "String"
+		case 12:
+			p.Kind = "header"
+			p.Type = "String"
+		default: // 4..9
 			if hasBody {
 				p.Kind = "plain"
 				p.Type = "String"
 			} else {
 				hasBody = true
-				p.Kind = []string{"body", "validBody", "bodyValid"}[k-4]
+				p.Kind = []string{"body", "validBody", "bodyValid", "bodyRequired", "bodyThenFinal", "finalThenBody"}[k-4]
 				p.Type = rapid.SampledFrom(bodyTypes).Draw(t, "btype")
 			}
 		}
 		m.Params = append(m.Params, p)
 	}
+	// variations around the declaration; every draw shrinks to the plain variant
+	m.Before = someOf(t, methodExtras, 2, "before")
+	if m.Form != "" {
+		m.After = someOf(t, methodExtras, 2, "after")
+	}
+	if rarely(t, 4, "hasMods") {
+		m.Mods = rapid.SampledFrom(methodMods).Draw(t, "mods")
+	}
+	m.Throws = rarely(t, 5, "throws")
+	if rarely(t, 3, "hasBody") {
+		m.Body = rapid.SampledFrom([]string{"calls", "lambda", "anonymous", "locals"}).Draw(t, "body")
+	}
+	m.SameLine = rarely(t, 6, "sameLine")
+	if rarely(t, 5, "fieldBefore") {
+		m.FieldBefore = rapid.SampledFrom(fieldDecls).Draw(t, "fieldDecl")
+	}
 	return m
+}
+
+func signature(m Method) string {
+	var ts []string
+	for _, p := range m.Params {
+		ts = append(ts, noSpace(p.Type))
+	}
+	return m.Name + "(" + strings.Join(ts, ",") + ")"
 }
 
 func genCase(t *rapid.T) Case {
@@ -192,7 +295,7 @@ func genCase(t *rapid.T) Case {
 	for i := 0; i < n; i++ {
 		cl := Class{Pkg: rapid.SampledFrom(pkgs).Draw(t, "pkg")}
 		stem := rapid.SampledFrom(classStems).Draw(t, "stem")
-		kind := rapid.IntRange(0, 5).Draw(t, "classKind")
+		kind := rapid.IntRange(0, 6).Draw(t, "classKind")
 		switch {
 		case kind <= 2:
 			cl.Controller = "RestController"
@@ -200,6 +303,9 @@ func genCase(t *rapid.T) Case {
 		case kind == 3:
 			cl.Controller = "Controller"
 			cl.Name = stem + "Resource"
+		case kind == 6:
+			cl.Kind = "interface"
+			cl.Name = stem + "Operations"
 		default:
 			cl.Name = stem + "Service"
 		}
@@ -208,26 +314,117 @@ func genCase(t *rapid.T) Case {
 		}
 		used[cl.Pkg+"."+cl.Name] = true
 		if cl.Controller != "" {
-			switch rapid.IntRange(0, 3).Draw(t, "baseForm") {
+			switch rapid.IntRange(0, 4).Draw(t, "baseForm") {
 			case 1, 3:
 				cl.BaseForm = "shorthand"
 			case 2:
 				cl.BaseForm = "valuePair"
+			case 4:
+				// a class-level mapping that gives no path: the base path is empty
+				cl.BaseForm = "pairOnly"
+				cl.BasePair = rapid.SampledFrom(extraPairs).Draw(t, "basePair")
 			}
-			if cl.BaseForm != "" {
-				cl.Base = rapid.SampledFrom(pathWords[:4]).Draw(t, "base")
+			if cl.BaseForm == "shorthand" || cl.BaseForm == "valuePair" {
+				cl.Base = rapid.SampledFrom(baseWords).Draw(t, "base")
+			}
+			if cl.BaseForm == "valuePair" && rarely(t, 1, "hasBasePair") {
+				cl.BasePair = rapid.SampledFrom(extraPairs).Draw(t, "basePair")
+				cl.BasePairFirst = rapid.Bool().Draw(t, "basePairFirst")
+			}
+			switch rapid.IntRange(0, 7).Draw(t, "ctlArg") {
+			case 6:
+				cl.CtlArg = "(\"" + strings.ToLower(stem) + "Ctl\")"
+			case 7:
+				cl.CtlArg = "(value = \"/" + strings.ToLower(stem) + "Ctl\")"
+			}
+			cl.Mid = someOf(t, typeExtras, 1, "mid")
+		} else {
+			// a class that is not a controller: a stereotype of its own, now and then a class-level mapping
+			if rarely(t, 1, "hasStereotype") {
+				cl.Stereotype = rapid.SampledFrom(stereotypes).Draw(t, "stereotype")
+			}
+			if rarely(t, 3, "baseOfNonController") {
+				cl.BaseForm = rapid.SampledFrom([]string{"shorthand", "valuePair"}).Draw(t, "baseFormNC")
+				cl.Base = rapid.SampledFrom(baseWords).Draw(t, "base")
 			}
 		}
-		cl.Field = rapid.Bool().Draw(t, "field")
+		cl.Pre = someOf(t, typeExtras, 1, "pre")
+		cl.Post = someOf(t, typeExtras, 1, "post")
+		if cl.Kind == "" {
+			switch rapid.IntRange(0, 9).Draw(t, "classMods") {
+			case 7:
+				cl.ClassMods = "package"
+			case 8:
+				cl.ClassMods = "public final"
+			case 9:
+				if cl.Controller == "" {
+					cl.ClassMods = "public abstract"
+				}
+			}
+			if rarely(t, 5, "extends") {
+				cl.Extends = rapid.SampledFrom([]string{"BaseController", "AbstractResource<OrderDto, Long>"}).Draw(t, "extendsWhat")
+			}
+			if rarely(t, 5, "implements") {
+				cl.Implements = rapid.SampledFrom([]string{"Serializable", "OrderOperations", "java.io.Serializable, Auditable<User>"}).Draw(t, "implementsWhat")
+			}
+			switch rapid.IntRange(0, 9).Draw(t, "dto") {
+			case 8:
+				cl.Dto = "before"
+			case 9:
+				cl.Dto = "after"
+			}
+		}
+		cl.Field = rapid.Bool().Draw(t, "field") && cl.Kind == ""
 		cl.Ctor = cl.Field && rapid.Bool().Draw(t, "ctor")
 		cl.Tabs = rapid.Bool().Draw(t, "tabs")
 		cl.Tight = rapid.IntRange(0, 3).Draw(t, "tight") == 3
 		cl.Comments = rapid.IntRange(0, 3).Draw(t, "comments") == 3
 		nm := rapid.IntRange(0, 5).Draw(t, "nMethods")
+		sigs := map[string]bool{}
 		for j := 0; j < nm; j++ {
-			cl.Methods = append(cl.Methods, genMethod(t, fmt.Sprintf("%s%d", []string{"find", "save", "remove", "list", "helper", "update"}[j], j), cl.Controller != ""))
+			m := genMethod(t, fmt.Sprintf("%s%d", []string{"find", "save", "remove", "list", "helper", "update"}[j], j), cl.Controller != "")
+			if j > 0 && rarely(t, 4, "overload") {
+				// an overload of an earlier method of the class (another parameter list)
+				m.Name = cl.Methods[rapid.IntRange(0, j-1).Draw(t, "overloadOf")].Name
+			}
+			if j > 0 && m.isHandler() && rarely(t, 5, "twin") {
+				// same verb and path as an earlier handler of the class (or same path under another verb)
+				if o := cl.Methods[rapid.IntRange(0, j-1).Draw(t, "twinOf")]; o.isHandler() {
+					m.Path = o.Path
+					if m.Form == "nopath" {
+						m.Path = ""
+					}
+					if rapid.Bool().Draw(t, "twinVerb") {
+						m.Verb = o.Verb
+					}
+				}
+			}
+			for k := 0; sigs[signature(m)]; k++ {
+				m.Params = append(m.Params, Param{Kind: "plain", Type: "Long", Name: fmt.Sprintf("ov%d", k)})
+			}
+			sigs[signature(m)] = true
+			if cl.Kind == "interface" {
+				m.Body, m.FieldBefore, m.Mods = "", "", ""
+			}
+			cl.Methods = append(cl.Methods, m)
 		}
 		c.Classes = append(c.Classes, cl)
+	}
+	// a controller may implement an interface of the project (imported by name when it lives in another package)
+	for i := range c.Classes {
+		cl := &c.Classes[i]
+		if cl.Controller == "" || cl.Kind != "" {
+			continue
+		}
+		for j, other := range c.Classes {
+			if other.Kind == "interface" && rarely(t, 1, fmt.Sprintf("implements%d_%d", i, j)) {
+				cl.Implements = other.Name
+				if other.Pkg != cl.Pkg {
+					cl.Imports = []string{other.Pkg + "." + other.Name}
+				}
+				break
+			}
+		}
 	}
 	c.Order = rapid.Permutation(indexes(n)).Draw(t, "order")
 	nSubs := rapid.IntRange(0, 2).Draw(t, "nSubs")
@@ -236,6 +433,42 @@ func genCase(t *rapid.T) Case {
 		k := rapid.IntRange(1, n).Draw(t, "subLen")
 		c.Subs = append(c.Subs, perm[:k])
 	}
+	c.Maven = rarely(t, 3, "maven")
+	// prefixes for the aggregate filter: mostly beginnings of URIs that exist in the project
+	var pool []string
+	for _, cl := range c.Classes {
+		for _, e := range expected(cl) {
+			pool = append(pool, e.Uri)
+			if len(e.Uri) > 2 {
+				pool = append(pool, e.Uri[:len(e.Uri)/2])
+			}
+		}
+	}
+	pool = append(pool, "/", "/a", "/nothing/here", "")
+	for i, np := 0, rapid.IntRange(0, 2).Draw(t, "nPrefixes"); i < np; i++ {
+		c.Prefixes = append(c.Prefixes, rapid.SampledFrom(pool).Draw(t, "prefix"))
+	}
+	return c
+}
+
+func genCliCase(t *rapid.T) Case {
+	c := genCase(t)
+	for _, f := range []string{"-c", "-s", "-a", "-r"} {
+		if rarely(t, 2, "flag"+f) {
+			c.Flags = append(c.Flags, f)
+		}
+	}
+	return c
+}
+
+func genSeqCase(t *rapid.T) Case {
+	c := genCase(t)
+	if len(c.Subs) == 0 {
+		n := len(c.Classes)
+		perm := rapid.Permutation(indexes(n)).Draw(t, "seqSubPerm")
+		c.Subs = append(c.Subs, perm[:rapid.IntRange(1, n).Draw(t, "seqSubLen")])
+	}
+	c.Seq = rapid.SliceOfN(rapid.IntRange(0, len(c.Subs)), 2, 4).Draw(t, "seq")
 	return c
 }
 
@@ -250,6 +483,93 @@ func indexes(n int) []int {
 // ---------------------------------------------------------------------------------------
 // Java text builder
 
+func paramPrefix(p Param) string {
+	switch p.Kind {
+	case "body":
+		return "@RequestBody "
+	case "validBody":
+		return "@Valid @RequestBody "
+	case "bodyValid":
+		return "@RequestBody @Valid "
+	case "bodyRequired":
+		return "@RequestBody(required = false) "
+	case "bodyThenFinal":
+		return "@RequestBody final "
+	case "finalThenBody":
+		return "final @RequestBody "
+	case "path":
+		return "@PathVariable(\"" + p.Name + "\") "
+	case "pathMarker":
+		return "@PathVariable "
+	case "requestParam":
+		return "@RequestParam(value = \"" + p.Name + "\", required = false, defaultValue = \"/none\") "
+	case "header":
+		return "@RequestHeader(\"X-" + p.Name + "\") "
+	case "valid":
+		return "@Valid "
+	}
+	return ""
+}
+
+// mappingAnnotation prints the mapping annotation of a handler method.
+func mappingAnnotation(m Method, eq string) string {
+	ann := verbAnn[m.Verb]
+	val := "value" + eq + "\"" + m.Path + "\""
+	verb := "RequestMethod." + m.Verb
+	switch m.VerbForm {
+	case "static":
+		verb = m.Verb
+	case "array":
+		verb = "{RequestMethod." + m.Verb + "}"
+	}
+	met := "method" + eq + verb
+	var parts []string
+	switch m.Form {
+	case "shorthand":
+		return "@" + ann + "(\"" + m.Path + "\")"
+	case "nopath":
+		if m.Pair == "" {
+			if m.Parens {
+				return "@" + ann + "()"
+			}
+			return "@" + ann
+		}
+	case "shorthandValuePair":
+		parts = []string{val}
+	case "requestValueFirst":
+		ann = "RequestMapping"
+		parts = []string{val, met}
+	case "requestMethodFirst":
+		ann = "RequestMapping"
+		parts = []string{met, val}
+	}
+	if m.Pair != "" {
+		switch {
+		case m.PairPos == 1:
+			parts = append([]string{m.Pair}, parts...)
+		case m.PairPos == 2 && len(parts) == 2:
+			parts = []string{parts[0], m.Pair, parts[1]}
+		default:
+			parts = append(parts, m.Pair)
+		}
+	}
+	return "@" + ann + "(" + strings.Join(parts, ", ") + ")"
+}
+
+func bodyLines(m Method) []string {
+	switch m.Body {
+	case "calls":
+		return []string{"helper.audit(\"" + m.Name + "\", \"/audit/path\");", "service.load(1L).getItems().size();"}
+	case "lambda":
+		return []string{"items.stream().filter(i -> i != null).map(Item::getName).forEach(n -> log(n));"}
+	case "anonymous":
+		return []string{"Runnable task = new Runnable() {", "    @Override", "    public void run() {", "        log(\"/run\");", "    }", "};", "task.run();"}
+	case "locals":
+		return []string{"@SuppressWarnings(\"unchecked\") final List<Item> found = (List<Item>) cache.get(\"/key\");", "if (found == null) {", "    throw new IllegalStateException(\"/missing\");", "}"}
+	}
+	return nil
+}
+
 func render(cl Class) string {
 	var sb strings.Builder
 	ind := "    "
@@ -261,65 +581,138 @@ func render(cl Class) string {
 		eq = "="
 	}
 	sb.WriteString("package " + cl.Pkg + ";\n\n")
-	sb.WriteString("import java.util.List;\nimport java.util.Map;\nimport org.springframework.web.bind.annotation.*;\n\n")
+	sb.WriteString("import java.util.List;\nimport java.util.Map;\nimport org.springframework.web.bind.annotation.*;\n")
+	for _, imp := range cl.Imports {
+		sb.WriteString("import " + imp + ";\n")
+	}
+	for _, m := range cl.Methods {
+		if m.VerbForm == "static" {
+			sb.WriteString("import static org.springframework.web.bind.annotation.RequestMethod.*;\n")
+			break
+		}
+	}
+	sb.WriteString("\n")
+	dto := "@Data\nclass " + cl.Name + "Dto {\n" + ind + "@JsonProperty(\"/id\")\n" + ind + "private String id;\n\n" + ind + "public String getId() {\n" + ind + ind + "return id;\n" + ind + "}\n}\n"
+	if cl.Dto == "before" {
+		sb.WriteString(dto + "\n")
+	}
 	if cl.Comments {
 		sb.WriteString("/**\n * " + cl.Name + " with \"quotes\" and @RequestMapping(\"/not/real\") in a comment.\n */\n")
 	}
-	if cl.Controller != "" {
-		sb.WriteString("@" + cl.Controller + "\n")
-		switch cl.BaseForm {
-		case "shorthand":
-			sb.WriteString("@RequestMapping(\"" + cl.Base + "\")\n")
-		case "valuePair":
-			sb.WriteString("@RequestMapping(value" + eq + "\"" + cl.Base + "\")\n")
-		}
+	for _, a := range cl.Pre {
+		sb.WriteString(a + "\n")
 	}
-	sb.WriteString("public class " + cl.Name + " {\n")
+	if cl.Controller != "" {
+		sb.WriteString("@" + cl.Controller + cl.CtlArg + "\n")
+	} else if cl.Stereotype != "" {
+		sb.WriteString(cl.Stereotype + "\n")
+	}
+	for _, a := range cl.Mid {
+		sb.WriteString(a + "\n")
+	}
+	switch cl.BaseForm {
+	case "shorthand":
+		sb.WriteString("@RequestMapping(\"" + cl.Base + "\")\n")
+	case "valuePair":
+		parts := []string{"value" + eq + "\"" + cl.Base + "\""}
+		if cl.BasePair != "" {
+			if cl.BasePairFirst {
+				parts = append([]string{cl.BasePair}, parts...)
+			} else {
+				parts = append(parts, cl.BasePair)
+			}
+		}
+		sb.WriteString("@RequestMapping(" + strings.Join(parts, ", ") + ")\n")
+	case "pairOnly":
+		sb.WriteString("@RequestMapping(" + cl.BasePair + ")\n")
+	}
+	for _, a := range cl.Post {
+		sb.WriteString(a + "\n")
+	}
+	mods := "public "
+	switch cl.ClassMods {
+	case "package":
+		mods = ""
+	case "":
+	default:
+		mods = cl.ClassMods + " "
+	}
+	isInterface := cl.Kind == "interface"
+	if isInterface {
+		sb.WriteString("public interface " + cl.Name)
+	} else {
+		sb.WriteString(mods + "class " + cl.Name)
+	}
+	if cl.Extends != "" {
+		sb.WriteString(" extends " + cl.Extends)
+	}
+	if cl.Implements != "" {
+		sb.WriteString(" implements " + cl.Implements)
+	}
+	sb.WriteString(" {\n")
 	if cl.Field {
 		sb.WriteString(ind + "private final Helper helper;\n\n")
 	}
 	if cl.Ctor {
 		sb.WriteString(ind + "public " + cl.Name + "(Helper helper) {\n" + ind + ind + "this.helper = helper;\n" + ind + "}\n\n")
 	}
-	for _, m := range cl.Methods {
+	for i, m := range cl.Methods {
+		if m.FieldBefore != "" && !isInterface {
+			for _, line := range strings.Split(fmt.Sprintf(m.FieldBefore, i), "\n") {
+				sb.WriteString(ind + line + "\n")
+			}
+			sb.WriteString("\n")
+		}
 		if cl.Comments {
 			sb.WriteString(ind + "// " + m.Name + "\n")
 		}
-		ann := verbAnn[m.Verb]
+		var anns []string
+		anns = append(anns, m.Before...)
 		switch m.Form {
+		case "":
 		case "override":
-			sb.WriteString(ind + "@Override\n")
+			anns = append(anns, "@Override")
 		case "otherAnnotation":
-			sb.WriteString(ind + m.Path + "\n")
-		case "shorthand":
-			sb.WriteString(ind + "@" + ann + "(\"" + m.Path + "\")\n")
-		case "nopath":
-			sb.WriteString(ind + "@" + ann + "\n")
-		case "shorthandValuePair":
-			sb.WriteString(ind + "@" + ann + "(value" + eq + "\"" + m.Path + "\")\n")
-		case "requestValueFirst":
-			sb.WriteString(ind + "@RequestMapping(value" + eq + "\"" + m.Path + "\", method" + eq + "RequestMethod." + m.Verb + ")\n")
-		case "requestMethodFirst":
-			sb.WriteString(ind + "@RequestMapping(method" + eq + "RequestMethod." + m.Verb + ", value" + eq + "\"" + m.Path + "\")\n")
+			anns = append(anns, m.Path)
+		default:
+			anns = append(anns, mappingAnnotation(m, eq))
 		}
+		anns = append(anns, m.After...)
 		var ps []string
 		for _, p := range m.Params {
-			prefix := ""
-			switch p.Kind {
-			case "body":
-				prefix = "@RequestBody "
-			case "validBody":
-				prefix = "@Valid @RequestBody "
-			case "bodyValid":
-				prefix = "@RequestBody @Valid "
-			case "path":
-				prefix = "@PathVariable(\"" + p.Name + "\") "
-			case "valid":
-				prefix = "@Valid "
-			}
-			ps = append(ps, prefix+p.Type+" "+p.Name)
+			ps = append(ps, paramPrefix(p)+p.Type+" "+p.Name)
 		}
-		sb.WriteString(ind + "public " + m.Ret + " " + m.Name + "(" + strings.Join(ps, ", ") + ") {\n")
+		mmods := "public "
+		switch m.Mods {
+		case "package":
+			mmods = ""
+		case "":
+		default:
+			mmods = m.Mods + " "
+		}
+		if isInterface {
+			mmods = ""
+		}
+		sig := mmods + m.Ret + " " + m.Name + "(" + strings.Join(ps, ", ") + ")"
+		if m.Throws {
+			sig += " throws java.io.IOException, IllegalStateException"
+		}
+		if m.SameLine {
+			sb.WriteString(ind + strings.Join(append(anns, sig), " "))
+		} else {
+			for _, a := range anns {
+				sb.WriteString(ind + a + "\n")
+			}
+			sb.WriteString(ind + sig)
+		}
+		if isInterface {
+			sb.WriteString(";\n\n")
+			continue
+		}
+		sb.WriteString(" {\n")
+		for _, line := range bodyLines(m) {
+			sb.WriteString(ind + ind + line + "\n")
+		}
 		switch m.Ret {
 		case "void":
 			sb.WriteString(ind + ind + "log(\"" + m.Name + "\");\n")
@@ -331,6 +724,9 @@ func render(cl Class) string {
 		sb.WriteString(ind + "}\n\n")
 	}
 	sb.WriteString("}\n")
+	if cl.Dto == "after" {
+		sb.WriteString("\n" + dto)
+	}
 	return sb.String()
 }
 
@@ -386,7 +782,7 @@ func expected(cl Class) []Entry {
 		}
 		e := Entry{Verb: m.Verb, Uri: cl.Base + m.Path, Pkg: cl.Pkg, Class: cl.Name, Method: m.Name}
 		for _, p := range m.Params {
-			if p.Kind == "body" || p.Kind == "validBody" || p.Kind == "bodyValid" {
+			if isBodyKind(p.Kind) {
 				e.Body = noSpace(p.Type)
 			}
 		}
@@ -415,10 +811,18 @@ func toEntries(apis []api_domain.RestAPI) []Entry {
 func fileTree(c Case, seq []int) map[string]string {
 	files := map[string]string{}
 	for pos, idx := range seq {
-		cl := c.Classes[idx]
-		files[fmt.Sprintf("f%02d_%s.java", pos, cl.Name)] = render(cl)
+		files[fileName(c, pos, idx)] = render(c.Classes[idx])
 	}
 	return files
+}
+
+// fileName: the position in the sequence leads the name, so that the walk order is the sequence
+func fileName(c Case, pos, idx int) string {
+	cl := c.Classes[idx]
+	if c.Maven {
+		return fmt.Sprintf("m%02d/src/main/java/%s/%s.java", pos, strings.ReplaceAll(cl.Pkg, ".", "/"), cl.Name)
+	}
+	return fmt.Sprintf("f%02d_%s.java", pos, cl.Name)
 }
 
 func resetAll() {
@@ -431,6 +835,12 @@ func resetAll() {
 // scanInProcess runs the pipeline of `coca analysis` + `coca api -f` through the packages.
 func scanInProcess(dir string) ([]Entry, string) {
 	resetAll()
+	apis, msg := pipeline(dir)
+	return toEntries(apis), msg
+}
+
+// pipeline: identifier pass, full pass, API scan - without touching the package state first
+func pipeline(dir string) ([]api_domain.RestAPI, string) {
 	var apis []api_domain.RestAPI
 	if p := pbt.Call(func() {
 		identApp := javaapp.NewJavaIdentifierApp()
@@ -444,18 +854,38 @@ func scanInProcess(dir string) ([]Entry, string) {
 	}); p != "" {
 		return nil, "API scan panicked: " + p
 	}
-	return toEntries(apis), ""
+	return apis, ""
 }
 
-func scanCLI(dir string) ([]Entry, string) {
+// scanCLI: `coca analysis` + `coca api -f` (plus the drawn options) in a fresh working directory; the API
+// list is coca_reporter/apis.json, and coca_reporter/api.csv must show that list row by row.
+func scanCLI(dir string, flags []string, prefix string) ([]Entry, string) {
 	cwd := filepath.Join(dir, "_work")
 	_ = os.MkdirAll(cwd, 0755)
 	src := filepath.Join(dir, "src")
 	if r, err := cli.Run("coca", cwd, nil, "analysis", "-p", src); err != nil || r.ExitCode != 0 || r.TimedOut {
 		return nil, fmt.Sprintf("`coca analysis -p DIR` failed: %v exit=%d\n%s%s", err, r.ExitCode, tail(r.Stdout), tail(r.Stderr))
 	}
-	if r, err := cli.Run("coca", cwd, nil, "api", "-f", "-p", src); err != nil || r.ExitCode != 0 || r.TimedOut {
-		return nil, fmt.Sprintf("`coca api -f -p DIR` failed: %v exit=%d\n%s%s", err, r.ExitCode, tail(r.Stdout), tail(r.Stderr))
+	args := []string{"api", "-f", "-p", src}
+	aggregate, removed := "", false
+	for _, f := range flags {
+		switch f {
+		case "-a":
+			aggregate = prefix
+			if aggregate == "" {
+				aggregate = "/a"
+			}
+			args = append(args, "-a", aggregate)
+		case "-r":
+			removed = true
+			args = append(args, "-r", "com.acme")
+		case "-c", "-s":
+			args = append(args, f)
+		}
+	}
+	shown := "`coca " + strings.Join(args[:3], " ") + " DIR " + strings.Join(args[4:], " ") + "`"
+	if r, err := cli.Run("coca", cwd, nil, args...); err != nil || r.ExitCode != 0 || r.TimedOut {
+		return nil, fmt.Sprintf("%s failed: %v exit=%d\n%s%s", shown, err, r.ExitCode, tail(r.Stdout), tail(r.Stderr))
 	}
 	raw, err := os.ReadFile(filepath.Join(cwd, "coca_reporter", "apis.json"))
 	if err != nil {
@@ -465,7 +895,69 @@ func scanCLI(dir string) ([]Entry, string) {
 	if err := json.Unmarshal(raw, &apis); err != nil {
 		return nil, "coca_reporter/apis.json is not a JSON list of APIs: " + err.Error()
 	}
+	// api.csv: one row (size, verb, URI, caller) per entry of the list (per entry under the prefix with -a)
+	csv, err := os.ReadFile(filepath.Join(cwd, "coca_reporter", "api.csv"))
+	if err != nil {
+		return nil, shown + " wrote no coca_reporter/api.csv: " + err.Error()
+	}
+	var rows, wantRows []string
+	for i, line := range strings.Split(strings.TrimSpace(string(csv)), "\n") {
+		if i == 0 || strings.TrimSpace(line) == "" {
+			continue // header
+		}
+		f := strings.Split(line, ",")
+		if len(f) != 4 {
+			return nil, fmt.Sprintf("%s: api.csv has a row that is not size,verb,URI,caller: %q", shown, line)
+		}
+		row := strings.TrimSpace(f[1]) + " " + strings.TrimSpace(f[2])
+		if !removed {
+			row += " " + strings.TrimSpace(f[3])
+		}
+		rows = append(rows, row)
+	}
+	for _, a := range apis {
+		if !strings.HasPrefix(a.Uri, aggregate) {
+			continue
+		}
+		row := a.HttpMethod + " " + a.Uri
+		if !removed {
+			row += " " + a.PackageName + "." + a.ClassName + "." + a.MethodName
+		}
+		wantRows = append(wantRows, row)
+	}
+	sort.Strings(rows)
+	sort.Strings(wantRows)
+	if d := diff(wantRows, rows); d != "" {
+		return nil, fmt.Sprintf("%s: the rows of api.csv are not the entries of apis.json%s: %s", shown, map[bool]string{true: " under the prefix " + aggregate, false: ""}[aggregate != ""], d)
+	}
 	return toEntries(apis), ""
+}
+
+// filterClauses: the aggregate filter keeps exactly the entries under the prefix, keeps everything for the
+// empty prefix, and leaves the list it was given as it was - also when the same list is filtered again.
+func filterClauses(apis []api_domain.RestAPI, prefixes []string) string {
+	before := sorted(toEntries(apis))
+	inOrder := fmt.Sprint(toEntries(apis))
+	for _, prefix := range append(append([]string{}, prefixes...), "") {
+		var out []api_domain.RestAPI
+		if p := pbt.Call(func() { out = api_domain.FilterApiByPrefix(prefix, apis) }); p != "" {
+			return fmt.Sprintf("FilterApiByPrefix(%q) panicked: %s", prefix, p)
+		}
+		var want []Entry
+		for _, e := range toEntries(apis) {
+			if strings.HasPrefix(e.Uri, prefix) {
+				want = append(want, e)
+			}
+		}
+		got := sorted(toEntries(out))
+		if after := fmt.Sprint(toEntries(apis)); after != inOrder {
+			return fmt.Sprintf("FilterApiByPrefix(%q) changed the API list it was given (prefixes tried in this order: %q):\nbefore %q\nafter  %q", prefix, prefixes, before, sorted(toEntries(apis)))
+		}
+		if d := diff(sorted(want), got); d != "" {
+			return fmt.Sprintf("FilterApiByPrefix(%q) does not keep exactly the entries whose URI starts with the prefix (prefixes tried in this order: %q): %s\nlist %q", prefix, prefixes, d, before)
+		}
+	}
+	return ""
 }
 
 func tail(s string) string {
@@ -503,8 +995,7 @@ func diff(want, got []string) string {
 func describe(c Case, seq []int) string {
 	var sb strings.Builder
 	for pos, idx := range seq {
-		cl := c.Classes[idx]
-		sb.WriteString(fmt.Sprintf("--- f%02d_%s.java ---\n%s", pos, cl.Name, render(cl)))
+		sb.WriteString(fmt.Sprintf("--- %s ---\n%s", fileName(c, pos, idx), render(c.Classes[idx])))
 	}
 	return sb.String()
 }
@@ -539,20 +1030,34 @@ func judge(c Case, seq []int, scan func(dir string) ([]Entry, string)) ([]Entry,
 
 var reHex = regexp.MustCompile(`\+?0x[0-9a-f]+\??`)
 
-func scanDirInProcess(dir string) ([]Entry, string) { return scanInProcess(dir) }
-
-func check(c Case, viaCLI bool) pbt.Verdict {
-	scan := scanDirInProcess
-	what := "JavaApiApp.AnalysisPath"
-	if viaCLI {
-		what = "coca api -f (apis.json)"
-		scan = func(src string) ([]Entry, string) { return scanCLI(filepath.Dir(src)) }
-	}
-	// 1. the whole project against the expectation by construction
+func expectedOf(c Case, seq []int) []Entry {
 	var want []Entry
-	for _, idx := range c.Order {
+	for _, idx := range seq {
 		want = append(want, expected(c.Classes[idx])...)
 	}
+	return want
+}
+
+func check(c Case, viaCLI bool) pbt.Verdict {
+	what := "JavaApiApp.AnalysisPath"
+	scan := func(src string) ([]Entry, string) {
+		resetAll()
+		apis, msg := pipeline(src)
+		if msg == "" {
+			msg = filterClauses(apis, c.Prefixes)
+		}
+		return toEntries(apis), msg
+	}
+	if viaCLI {
+		what = "coca api -f (apis.json)"
+		prefix := ""
+		if len(c.Prefixes) > 0 {
+			prefix = c.Prefixes[0]
+		}
+		scan = func(src string) ([]Entry, string) { return scanCLI(filepath.Dir(src), c.Flags, prefix) }
+	}
+	// 1. the whole project against the expectation by construction
+	want := expectedOf(c, c.Order)
 	got, msg := judge(c, c.Order, scan)
 	if msg != "" {
 		return pbt.Fail("%s", msg)
@@ -581,15 +1086,73 @@ func check(c Case, viaCLI bool) pbt.Verdict {
 				return pbt.Fail("%s: entries of %s.%s differ between the whole project (file order %v) and the sub-project with file order %v: %s\n%s", what, cl.Pkg, cl.Name, c.Order, seq, d, describe(c, seq))
 			}
 		}
-		var subWant []Entry
-		for _, idx := range seq {
-			subWant = append(subWant, expected(c.Classes[idx])...)
-		}
-		if d := diff(sorted(subWant), sorted(subGot)); d != "" {
+		if d := diff(sorted(expectedOf(c, seq)), sorted(subGot)); d != "" {
 			return pbt.Fail("%s: sub-project with file order %v: API list differs from its handler methods: %s\n%s", what, seq, d, describe(c, seq))
 		}
 	}
 	return classify(c)
+}
+
+// checkSeq: several projects scanned one after the other in ONE process without resetting any package
+// state in between (what a long-running caller of the packages, or the repository's own test binary,
+// does): every scan must return the API list of the project it was given, and a list returned earlier
+// must not change when a later scan runs.
+func checkSeq(c Case) pbt.Verdict {
+	projects := append([][]int{c.Order}, c.Subs...)
+	root := cli.Scratch("c12-seq-")
+	defer os.RemoveAll(root)
+	var dirs []string
+	for k, seq := range projects {
+		files := fileTree(c, seq)
+		for _, text := range files {
+			mustParse(text)
+		}
+		dir := filepath.Join(root, fmt.Sprintf("p%d", k), "src")
+		cli.WriteTree(dir, files)
+		dirs = append(dirs, dir)
+	}
+	type run struct {
+		project int
+		apis    []api_domain.RestAPI
+		snap    []string
+	}
+	var runs []run
+	resetAll()
+	for step, k := range c.Seq {
+		if k < 0 || k >= len(projects) {
+			k = 0
+		}
+		apis, msg := pipeline(dirs[k])
+		if msg != "" {
+			msg = reHex.ReplaceAllString(strings.ReplaceAll(msg, root, "<scratch>"), "0x_")
+			return pbt.Fail("scan %d of the sequence %v: %s\n%s", step, c.Seq, msg, describe(c, projects[k]))
+		}
+		got := sorted(toEntries(apis))
+		if d := diff(sorted(expectedOf(c, projects[k])), got); d != "" {
+			return pbt.Fail("scan %d of the sequence %v (projects %v, scanned in one process): API list differs from the handler methods of the project scanned: %s\ngot %q\n%s", step, c.Seq, projects, d, got, describe(c, projects[k]))
+		}
+		for i, r := range runs {
+			if d := diff(r.snap, sorted(toEntries(r.apis))); d != "" {
+				return pbt.Fail("the API list returned by scan %d changed while scan %d ran (sequence %v, projects %v): %s", i, step, c.Seq, projects, d)
+			}
+		}
+		runs = append(runs, run{k, apis, got})
+	}
+	v := classify(c)
+	v.Classes = append(v.Classes, "seq_len_"+fmt.Sprint(len(c.Seq)))
+	for i := 1; i < len(c.Seq); i++ {
+		if c.Seq[i] == c.Seq[i-1] {
+			v.Classes = append(v.Classes, "seq_same_project_twice_in_a_row")
+			break
+		}
+	}
+	return v
+}
+
+func mark(labels map[string]bool, cond bool, label string) {
+	if cond {
+		labels[label] = true
+	}
 }
 
 func classify(c Case) pbt.Verdict {
@@ -637,6 +1200,64 @@ func classify(c Case) pbt.Verdict {
 		if cl.Controller == "Controller" {
 			labels["@Controller"] = true
 		}
+		// the later variations
+		names := map[string]int{}
+		uris := map[string]int{}
+		for i, m := range cl.Methods {
+			names[m.Name]++
+			if cl.Controller == "" {
+				continue
+			}
+			if m.isHandler() {
+				uris[m.Verb+" "+m.Path]++
+				mark(labels, len(m.Before) > 0, "handler_annotation_before_mapping")
+				mark(labels, len(m.After) > 0, "handler_annotation_after_mapping")
+				mark(labels, m.Pair != "", "mapping_with_further_pair")
+				mark(labels, m.Pair != "" && m.PairPos == 1, "mapping_with_further_pair_first")
+				mark(labels, m.VerbForm != "", "verb_"+m.VerbForm)
+				mark(labels, m.Parens, "mapping_empty_parens")
+				mark(labels, m.Path == "" && m.Form != "nopath", "empty_path_string")
+				mark(labels, m.Mods != "", "handler_not_plain_public")
+				mark(labels, m.Body != "", "handler_body_"+m.Body)
+				mark(labels, m.SameLine, "annotations_and_signature_on_one_line")
+				for j, p := range m.Params {
+					mark(labels, p.Kind == "bodyRequired" || p.Kind == "bodyThenFinal" || p.Kind == "finalThenBody", "request_body_"+p.Kind)
+					mark(labels, isBodyKind(p.Kind) && j < len(m.Params)-1, "request_body_not_last")
+				}
+				if i > 0 {
+					for _, p := range cl.Methods[i-1].Params {
+						mark(labels, isBodyKind(p.Kind) && !cl.Methods[i-1].isHandler(), "handler_after_non_handler_with_request_body")
+					}
+				}
+			} else {
+				mark(labels, m.Form == "otherAnnotation", "non_handler_with_other_annotation")
+			}
+			mark(labels, m.FieldBefore != "", "field_between_methods")
+		}
+		for _, n := range names {
+			mark(labels, n > 1 && cl.Controller != "", "overloaded_methods_in_controller")
+		}
+		for _, n := range uris {
+			mark(labels, n > 1, "two_handlers_same_verb_and_path")
+		}
+		mark(labels, cl.Kind == "interface", "interface_with_mapping_annotations")
+		mark(labels, cl.Controller == "" && cl.Stereotype != "" && handlers > 0, "stereotyped_non_controller_with_mappings")
+		mark(labels, cl.Controller == "" && strings.Contains(cl.Stereotype, "Controller") && handlers > 0, "controller_advice_with_mappings")
+		mark(labels, cl.Controller == "" && cl.BaseForm != "", "non_controller_with_class_level_mapping")
+		mark(labels, cl.Controller != "" && cl.CtlArg != "", "controller_annotation_with_argument")
+		mark(labels, cl.Controller != "" && len(cl.Pre) > 0, "type_annotation_before_controller_annotation")
+		mark(labels, cl.Controller != "" && len(cl.Mid) > 0, "type_annotation_between_controller_and_mapping")
+		mark(labels, cl.Controller != "" && len(cl.Post) > 0, "type_annotation_after_mapping")
+		mark(labels, cl.Controller != "" && cl.BasePair != "", "class_mapping_with_further_pair")
+		mark(labels, cl.Controller != "" && (cl.Extends != "" || cl.Implements != ""), "controller_extends_or_implements")
+		mark(labels, cl.Controller != "" && len(cl.Imports) > 0, "controller_implements_project_interface")
+		mark(labels, cl.Controller != "" && cl.Dto != "", "second_class_in_controller_file_"+cl.Dto)
+		mark(labels, cl.ClassMods != "", "class_not_plain_public")
+	}
+	mark(labels, c.Maven, "maven_layout")
+	mark(labels, len(c.Prefixes) > 0, "aggregate_prefixes")
+	for _, f := range c.Flags {
+		labels["cli_flag_"+f] = true
 	}
 	v.NonTrivial = withBase >= 1 && withoutBase >= 1
 	if v.NonTrivial {
@@ -660,12 +1281,15 @@ func classify(c Case) pbt.Verdict {
 
 func init() {
 	pbt.SetProperty("C12")
-	pbt.Describe("rapid-generated Spring-style projects of 1-6 classes, one class per file, any file order: controllers (@RestController / @Controller first, then optionally @RequestMapping(\"/b\") or @RequestMapping(value = \"/b\")), classes without controller annotation whose methods nevertheless carry mapping annotations, handlers with @Get/@Post/@Put/@DeleteMapping with path, without path and with value = \"/p\", @RequestMapping(value = \"/p\", method = RequestMethod.X) with the pairs in either order, 0-4 parameters (plain, @PathVariable(\"id\"), @Valid, @RequestBody with and without @Valid in both orders), non-handler methods (plain, @Override) interleaved, optional field and constructor, two layouts. Every file is validated with the shipped parser (a rejection aborts the run as a harness bug). Oracle: list of (verb, base+path, body type without blanks, package, class, method) by construction, compared as a multiset with JavaApiApp.AnalysisPath fed by the identifier and full passes as cmd/api.go does (sub-check api) and with coca_reporter/apis.json of `coca analysis` + `coca api -f` (sub-check cli); metamorphic clause: the entries of every controller are identical in the whole project, alone, and in random sub-projects with other file orders. Non-trivial = at least one controller with and one without class-level base path in the project; distinct = hash of the description.",
-		"not generated (ambiguous expected value): bare class-level @RequestMapping, method-level @RequestMapping without method=, controller annotation after the class-level mapping, nested classes, interface handlers, several @RequestBody parameters",
+	pbt.Describe("rapid-generated Spring-style projects of 1-6 types, one public type per file (flat directory or mNN/src/main/java/<package>/ layout), any file order: controllers (@RestController / @Controller, bare or with a bean name argument, then optionally @RequestMapping(\"/b\"), @RequestMapping(value = \"/b\" [, produces = ...]) or a class-level mapping that gives no path), classes without controller annotation (none, @Service, @Component, @ControllerAdvice, @RestControllerAdvice, @FeignClient ..., now and then with a class-level @RequestMapping) and interfaces whose methods nevertheless carry mapping annotations, handlers with @Get/@Post/@Put/@DeleteMapping with path (also \"\" and a path without leading slash), without path (bare, (), or only produces=/consumes=... pairs) and with value = \"/p\", @RequestMapping(value = \"/p\", method = RequestMethod.X | X by static import | {RequestMethod.X}) with the pairs in either order and a further pair first, in the middle or last, 0-4 parameters (plain, @PathVariable with and without name, @RequestParam(...), @RequestHeader, @Valid, @RequestBody with and without @Valid / final / (required = false) in both orders, at any position), further annotations before and after the mapping annotation (@ResponseBody, @ResponseStatus(..), @PreAuthorize(..), @ApiOperation(value = ..) ...), further type annotations before, between and after controller annotation and class-level mapping, non-handler methods (plain, @Override, @MessageMapping & co., now and then with a @RequestBody parameter) and annotated fields interleaved, overloaded handler names, two handlers with the same verb and path, handler bodies with calls, lambdas, an anonymous class or annotated locals, extends/implements clauses (also of an interface of the project), a second package-private class before or after the controller in its file, optional field and constructor, modifiers other than public, annotations and signature on one line, two layouts. Every file is validated with the shipped parser (a rejection aborts the run as a harness bug). Oracle: list of (verb, base+path, body type without blanks, package, class, method) by construction, compared as a multiset with JavaApiApp.AnalysisPath fed by the identifier and full passes as cmd/api.go does (sub-check api) and with coca_reporter/apis.json of `coca analysis` + `coca api -f [-c] [-s] [-a PREFIX] [-r PKG]` (sub-check cli; api.csv must show the entries of apis.json row by row, those under PREFIX with -a); metamorphic clause: the entries of every controller are identical in the whole project, alone, and in random sub-projects with other file orders; sub-check seq: 2-4 scans of the whole project and of sub-projects one after the other in one process without resetting package state: every scan returns the list of the project scanned and no list returned earlier changes; FilterApiByPrefix on the returned list keeps exactly the entries under the prefix, everything for the empty prefix, and does not change the list it is given. Non-trivial = at least one controller with and one without class-level base path in the project; distinct = hash of the description.",
+		"not generated (ambiguous expected value or outside the quantifier): bare class-level @RequestMapping, method-level @RequestMapping without method=, controller annotation after the class-level mapping, nested and local classes, handlers inherited from interfaces, several @RequestBody parameters, path= instead of value=, array-valued paths, several verbs in method={..}, path constants and concatenations, fully qualified annotation names",
 		"body type and nothing else is compared modulo white space",
-		"package state is reset with the verif hooks before every project scan, so that a scan corresponds to a fresh process")
+		"base path and method path are concatenated as written (no slash normalisation): the statement says 'base path followed by the method's path'",
+		"FilterApiByPrefix / `coca api -a PREFIX` (named in the property's anchors) is taken to keep exactly the entries whose URI starts with PREFIX",
+		"package state is reset with the verif hooks before every project scan of the sub-checks api and cli, so that a scan corresponds to a fresh process; sub-check seq resets once per case")
 	pbt.Register("api", 300, 2000, genCase, func(c Case) pbt.Verdict { return check(c, false) })
-	pbt.Register("cli", 25, 60, genCase, func(c Case) pbt.Verdict { return check(c, true) })
+	pbt.Register("seq", 100, 600, genSeqCase, checkSeq)
+	pbt.Register("cli", 25, 60, genCliCase, func(c Case) pbt.Verdict { return check(c, true) })
 }
 
 func TestProp(t *testing.T)   { pbt.Main(t) }
